@@ -67,6 +67,10 @@ class HistogramCollection(Container[Histogram1D], ObjectWithBinning):
         histograms = [h.copy() for h in self.histograms]
         for histogram in histograms:
             histogram._binning = binning_copy
+        if not histograms:
+            return HistogramCollection(
+                binning=binning_copy, title=self.title, name=self.name
+            )
         return HistogramCollection(*histograms, title=self.title, name=self.name)
 
     @property
@@ -141,7 +145,9 @@ class HistogramCollection(Container[Histogram1D], ObjectWithBinning):
                 dtype=np.int64,
                 binning=self.binning,
             )
-        return cast(Histogram1D, sum(self.histograms))
+        # Start from a copy: the sum of a single histogram would be that histogram itself
+        first, *others = self.histograms
+        return cast(Histogram1D, sum(others, first.copy()))
 
     @property
     def plot(self) -> "physt.plotting.PlottingProxy":
